@@ -17,19 +17,19 @@ CHECKS = {
    note="Trusted: vlib/ref/sm2.py + sigder.py, OpenSSL SM3. The 2^-256 retry branches of the hashing context interface are out of reach.",
    design="4/C01"),
  "C02": dict(level="exploration", technique="property-based testing (Hypothesis) with scripted entropy: library ciphertexts decrypted by an independent GB/T 32918.4 model, model ciphertexts decrypted by the library, decision agreement on constructed malformed candidates, ECDH vs [dA dB]G",
-   text="Generated keys/plaintexts/nonces through all encryption interfaces and all decryptors; constructed candidates (bit flips, bad C1/C2/C3, DER mutants) must get the model's verdict. Exploration only.",
+   text="Generated keys/plaintexts/nonces through all encryption interfaces and all decryptors; constructed candidates (bit flips, bad C1/C2/C3 incl. unreduced c+p encodings of small-coordinate curve points and the keyless all-zero C1, DER mutants) must get the model's verdict; the pre-computed-nonce encryptor (sm2_encrypt_pre_compute + sm2_do_encrypt_ex) must hold (k,[k]G) per slot with k the accepted entropy draw and produce the standard ciphertext. Exploration only.",
    note="Trusted: vlib/ref/sm2.py + sigder.py. 'Equals the GB/T value for the nonce drawn' is decided through the private key unless the scripted nonce was observed.",
    design="4/C02"),
  "C12": dict(level="exploration", technique="property-based testing (Hypothesis): generated coordinate/octet/scalar classes embedded in every import container, decision compared with a Python big-integer curve predicate; compress/decompress round trip",
-   text="Generated invalid and valid coordinates, octet strings (all lengths x prefix bytes) and scalars are pushed through every import path (raw, SEC1 octets, DER, SPKI DER/PEM, ECPrivateKey/PKCS#8, certificate/request SPKI, sm2_ecdh, TLS ECDHE records, TLS 1.3 key shares); import must succeed iff the model says the point/scalar is valid, never yield infinity, and reject mismatching embedded public keys. Exploration only.",
+   text="Generated invalid and valid coordinates, octet strings (all lengths x prefix bytes) and scalars are pushed through every import path (raw, SEC1 octets, DER, SPKI DER/PEM, ECPrivateKey/PKCS#8, certificate/request SPKI, sm2_ecdh, TLS ECDHE records, TLS 1.3 key shares, the C1 point of SM2 ciphertexts with C2/C3 consistent with infinity or with the reduced point; other octet-string shapes (00, empty, compressed, hybrid, 64/66 bytes) inside every container with its own length field; unreduced c+p encodings of constructed small-coordinate points); import must succeed iff the model says the point/scalar is valid, never yield infinity, and reject mismatching embedded public keys. Exploration only.",
    note="Trusted: vlib/ref/sm2.py curve predicate, sigder.py container builders (each with a positive control). SM9 point import is covered by C17's group sub-check, not here.",
    design="4/C12"),
  "C08": dict(level="exploration", technique="property-based testing (Hypothesis) of two real library endpoints over socketpairs through a harness-owned fragmenting proxy; model-based stream oracle (Python queue), key/secret agreement read from both TLS_CONNECT structs",
-   text="Generated protocol x auth mode x chain depth x transfer program (directions, write sizes 1..50000, read buffer sizes, fragmentation schedule, closer). Both handshakes must complete with equal secrets; every read must return the next bytes of the model queue. The byte-delivery schedule is owned by the proxy; CPU interleaving of the endpoint threads is only sampled.",
+   text="Generated protocol x auth mode x chain depth x transfer program (directions, write sizes 1..50000, read buffer sizes, fragmentation schedule, closer). Both handshakes must complete with equal secrets; every read must return the next bytes of the model queue; echo phases (partial read, write on the same connection, read the rest; a clean refusal of the write is accepted, corruption is not); connections carrying 260..1300 records; 2400 plain handshakes per quick run incl. key-exchange secrets aimed at leading zero bytes. The byte-delivery schedule is owned by the proxy; CPU interleaving of the endpoint threads is only sampled.",
    note="Trusted: Python PKI builder (vlib/ref/x509.py) and stream model; entropy scripted, clock frozen. A 60 s command time-out is inconclusive, never a violation.",
    design="4/C08"),
  "C10": dict(level="fault_enumeration", technique="fault injection by a record-aware man-in-the-middle proxy between two honest library endpoints (generated single-bit and record-level faults over a reproducible transcript; Hypothesis draws the fault coordinates)",
-   text="Single-bit flips at generated (record, byte, bit) coordinates of every handshake/CCS record payload and per-record drop/duplicate/swap/truncate/extend/replay/reflect faults, for 3 protocols x 2 auth modes x 4 entropy streams. Oracle: never both endpoints complete; a stray record that can only arrive after the receiver finished its handshake must be rejected at the next read. The quick tier samples the fault space; it is enumerated only as far as the thorough budget reaches.",
+   text="Single-bit flips at generated (record, byte, bit) coordinates of every handshake/CCS record payload and per-record drop/duplicate/swap/truncate/extend/replay/reflect faults and crafted injected records (content types 22/23/24/0/255, empty or short payloads, other versions), for 3 protocols x 2 auth modes x 4 entropy streams. Oracle: never both endpoints complete; a stray record that can only arrive after the receiver finished its handshake must be rejected at the next read. The quick tier samples the fault space; it is enumerated only as far as the thorough budget reaches.",
    note="Trusted: the proxy and the deterministic replay (scripted entropy, frozen clock). Quiescence time-outs can only move a run towards 'not completed'.",
    design="4/C10"),
  "C09": dict(level="fault_enumeration", technique="enumerated credential-defect matrix instantiated with generated material; each cell is a full handshake between real library endpoints (the defective peer doctored after tls_init where setters refuse), with a control run per cell",
@@ -37,7 +37,7 @@ CHECKS = {
    note="Trusted: Python PKI builder; frozen clock. The defective peer is the library itself with doctored TLS_CONNECT fields (sign_key, kenc_key, client_certs_len).",
    design="4/C09"),
  "C11": dict(level="exploration", technique="property-based testing (Hypothesis): round trip, differential interoperability with a Python record-layer model in both directions, generated edit neighbourhood that must be rejected, exact-size output buffers under ASan, and record duplication/swap/drop/replay on live connections through the proxy",
-   text="Generated keys/sequence numbers/types/payload lengths 0..16384/padding for SM4-CBC+HMAC-SM3 and TLS 1.3 SM4-GCM records; each protected record gets a generated neighbourhood (bit flips of body and authenticated header fields, length changes, truncation/extension, other sequence numbers, all-padding plaintexts) that must be rejected; live connections of all three protocols must only ever accept a prefix of what was sent. Sampled neighbourhood in quick, larger in thorough; not exhaustive.",
+   text="Generated keys/sequence numbers/types/payload lengths 0..16384/padding for SM4-CBC+HMAC-SM3 and TLS 1.3 SM4-GCM records; each protected record gets a generated neighbourhood (bit flips of body and authenticated header fields, length changes, truncation/extension, other sequence numbers, all-padding plaintexts) that must be rejected; live connections of all three protocols must only ever accept a prefix of what was sent, also when a record is replayed 255/256/257/512 records later, and when both peers' counters are advanced consistently to just below 2^k (k = 8..56): the records crossing 2^k arrive and the record sent 2^k earlier is refused. Sampled neighbourhood in quick, larger in thorough; not exhaustive.",
    note="Trusted: vlib/ref/tlsrec.py over OpenSSL SM4 and the Python GCM. Record buffers are exactly as long as their header says (tls_record_recv's postcondition).",
    design="4/C11"),
  "C14": dict(level="exploration", technique="property-based testing (Hypothesis) through ctypes against the ASan build, with an independent strict DER codec and single-defect mutators (vlib/ref/der.py), Python base64 / PBKDF2-HMAC-SM3 as references, canary-then-exact-size destination buffers and scripted entropy",
@@ -57,23 +57,23 @@ CHECKS = {
    note="Trusted: OpenSSL 3.0 EVP (SM4/AES ECB,CBC,CTR,OFB,CFB128, AES-GCM/CCM/XTS, ChaCha20); vlib/ref/modes.py and zuc.py (validated at import on published and repo vectors). Messages > 64 KiB, CCM nonce 9 with >= 64 KiB payload and AAD >= 2^32 not generated. CBC-MAC of the empty message excluded.",
    design="4/C04"),
  "C05": dict(level="fault_enumeration", technique="per generated instance, exhaustive enumeration of the single-edit neighbourhood (all bit flips of nonce/AAD/ciphertext/tag, all truncations, all 256 one-byte extensions) through one-shot and streaming decryptors; reject-all oracle with a positive control",
-   text="For each of SM4-GCM, AES-GCM, SM4-CCM (one-shot), SM4-GCM / SM4-CBC+SM3-HMAC / SM4-CTR+SM3-HMAC (streaming, generated chunking): 160 (quick) / 2000 (thorough) instances with AAD 0..24, message 0..48, every tag length; the neighbourhood is complete per instance, sampled over keys/nonces/lengths.",
+   text="For each of SM4-GCM, AES-GCM, SM4-CCM (one-shot), SM4-GCM / SM4-CBC+SM3-HMAC / SM4-CTR+SM3-HMAC (streaming, generated chunking): 160 (quick) / 2000 (thorough) instances with AAD 0..24, message 0..48, every tag length; the neighbourhood is complete per instance, sampled over keys/nonces/lengths. Plus one-shot instances with AAD around 2^8 / 2^12 / 2^16 bytes (CCM length-header boundaries 65280 / 65536): positive control, sampled and boundary AAD flips, every tag and ciphertext bit, and the CCM length-prefix confusions AAD' = encoded length || AAD.",
    note="Multi-bit forgeries only via C04's model agreement; accidental tag collision probability <= 2^-32 per neighbour (CCM 4-byte tags). Known finding: the two SM3-HMAC compositions do not authenticate the IV (format pinned by the repository's own test).",
    design="4/C05"),
  "C19": dict(level="exploration", technique="property-based testing (Hypothesis) over a catalogue of secret-handling operations with file descriptors 1/2 captured; the captured bytes are scanned for every 8-byte window of every secret the harness knows (scripted entropy makes ephemeral secrets known) in raw/hex/separated-hex/base64 form",
-   text="Generated instances of SM2/SM9/PKCS#8 operations (success and error paths) and of all three handshakes on both roles (success, untrusted server, rejected client) plus application data; any occurrence of a private scalar, nonce, password, plaintext, pre-master/master secret, key block, TLS 1.3 IV or 32-byte/>=40-byte entropy draw in the output is a violation. Exploration of the catalogue, not of all code paths.",
+   text="Generated instances of SM2/SM9/PKCS#8 operations (success and error paths, incl. keys with a foreign public key), TLS_CTX certificate/key loading (success and every refusal, distinct passwords per key) and of all three handshakes on both roles (success, untrusted server, rejected client) plus application data; any occurrence of a private scalar, nonce, password, plaintext, pre-master/master secret, key block, TLS 1.3 IV or 32-byte/>=40-byte entropy draw in the output is a violation. Exploration of the catalogue, not of all code paths.",
    note="Default build configuration only. TLS 1.3 raw traffic keys are not stored in TLS_CONNECT (only their key schedule), they are covered through the IVs printed next to them. Windows with < 4 distinct byte values are ignored.",
    design="4/C19"),
  "C18": dict(level="fault_enumeration", technique="entropy-source fault injection through a getentropy() interposer: for every randomised operation and every draw index the draw is made to fail; paired runs on equal / different streams; metamorphic dependency analysis of handshake transcripts (records that change when the stream changes from draw i on); repetition histories for nonce reuse",
-   text="Catalogue of 17 library operations and the 6 handshake endpoints x auth modes, with generated inputs: same stream => identical output, other stream => different output, EVERY draw index failing => the operation reports failure and (handshakes) sends no non-alert record that depends on draws >= i. Complete over the draw indices of each generated instance; sampled over inputs.",
+   text="Catalogue of 20 library operations (incl. CMS envelop / sign / sign-and-envelop for several recipients and signers, whose SM2 nonces must be pairwise distinct inside one message) and the 6 handshake endpoints x auth modes, with generated inputs: same stream => identical output, other stream => different output, EVERY draw index failing => the operation reports failure and (handshakes) sends no non-alert record that depends on draws >= i. Complete over the draw indices of each generated instance; sampled over inputs.",
    note="Trusted: the interposer (per-thread deterministic streams, verified active at start). getentropy() is assumed to be the only entropy source of the build.",
    design="4/C18"),
- "C06": dict(level="exploration", engine="libfuzzer", technique="coverage-guided fuzzing (libFuzzer) of 12 C harnesses against the clang ASan + UBSan(bounds, null, object-size, pointer-overflow) build with exact-size heap buffers, deterministic entropy/clock, dictionary and a seed corpus generated by the library itself (incl. replayable TLCP/TLS 1.2/TLS 1.3 transcripts); peer-stream harnesses run tls_do_handshake against a pre-written socketpair and check TLS_CONNECT invariants; corpus and regression inputs replayed under MemorySanitizer",
-   text="Every decoding, verifying and printing interface of ASN.1, X.509, CMS, PKCS#8, PEM/base64/hex, SM2/SM9, TLS record/handshake/extension code and every handshake byte stream a client or server of each protocol can receive is searched by mutation of valid objects; any sanitizer report, capacity/invariant violation or confirmed 25 s hang is a violation. 22 committed regression inputs are replayed first. Not exhaustive.",
+ "C06": dict(level="exploration", engine="libfuzzer", technique="coverage-guided fuzzing (libFuzzer) of 12 C harnesses against the clang ASan + UBSan(bounds, null, object-size, pointer-overflow) build with exact-size heap buffers, deterministic entropy/clock, dictionary and a seed corpus generated by the library itself (incl. replayable TLCP/TLS 1.2/TLS 1.3 transcripts); half of the mutations of the DER-based targets are structure-aware (LLVMFuzzerCustomMutator editing one TLV node and re-encoding all enclosing lengths); harness-side cryptography where the parser sits behind it (plaintext PrivateKeyInfo encrypted by the harness, record plaintext protected by the harness with the fixed traffic keys); boundary-capacity oracle (learn the needed size, offer need and need-1..8); peer-stream harnesses run tls_do_handshake against a pre-written socketpair and check TLS_CONNECT invariants; corpus and regression inputs replayed under MemorySanitizer",
+   text="Every decoding, verifying and printing interface of ASN.1, X.509, CMS, PKCS#8, PEM/base64/hex, SM2/SM9, TLS record/handshake/extension code and every handshake byte stream a client or server of each protocol can receive is searched by mutation of valid objects; any sanitizer report, capacity/invariant violation or confirmed 25 s hang is a violation. The committed regression inputs (fuzz/regress, 28 files) are replayed first. Not exhaustive.",
    note="Trusted: ASan/UBSan-subset/MSan and the harness preconditions (record buffers exactly 5+length bytes, 2048-byte certificate buffers as the callers use, PBKDF2 iteration counts above 2048 not executed, leaks not reported). TLS 1.3 messages after ServerHello are encrypted: their parsers are reached in clear only through fz_tlsrec; deep authenticated states are additionally reached by the in-flight mutation of C10/C19 under ASan.",
    design="4/C06"),
  "C15": dict(level="exploration", technique="property-based testing (Hypothesis) through ctypes: objects issued through the library's own builders from generated field sets, compared with an independent reference DER encoding and a library-free parse; Python SM2 model for the signatures; stratified and exhaustive single-bit neighbourhoods; membership oracle for CRL lookup",
-   text="About 1 200 issued certificates/requests/CRLs per quick run (every name/extension builder and criticality, validity across 2049/2050, 0..50 revoked entries); get_details must return the supplied fields, verification must succeed only under the issuer key and ID, every flipped bit (all bits on 24 small objects, ~140 sampled on the others) must break verification, CRL lookup must equal set membership incl. near-miss queries. Sampled, not exhaustive.",
+   text="About 1 200 issued certificates/requests/CRLs per quick run (every name/extension builder and criticality, validity across 2049/2050, 0..50 revoked entries, extension contents aimed at the DER length boundaries 127/128 and 255/256); get_details must return the supplied fields, verification must succeed only under the issuer key and ID, every flipped bit (all bits on 24 small objects, ~140 sampled on the others) must break verification, CRL lookup must equal set membership incl. near-miss queries. Sampled, not exhaustive.",
    note="Trusted: vlib/x509lib.py reference encodings, vlib/ref/der.py, vlib/ref/sm2.py. Inner signature algorithm sm2sign-with-sm3 only; network CRL helpers excluded.",
    design="4/C15"),
  "C16": dict(level="exploration", technique="property-based testing (Hypothesis) of the eight top-level cms_* functions with an independent SM2 + OpenSSL SM4-CBC model, eight key provenances (incl. non-normalised Jacobian representatives), field-targeted tampering located with the DER parser, empty/removed signerInfos",
